@@ -63,10 +63,13 @@ def _driver(ctx, binary, test, label, env=None, timeout=1200, hang_ok=False):
     rc, o = vlib.run_driver(binary, test, out, ctx.seed, env=env, timeout=timeout)
     if rc != 0:
         trace = os.path.join(out, "trace.ndjson")
-        hung = hang_ok and os.path.exists(trace) and '"ev":"duphang"' in open(trace).read()
+        txt = open(trace).read() if os.path.exists(trace) else ""
+        # (a duplicate that never returns, or requests parked in a leaf that cannot finish because a
+        # server lock was left held, keep goroutines blocked: the trace says so, TLC judges)
+        hung = hang_ok and ('"ev":"duphang"' in txt or '"lockleak":true' in txt)
         if not hung:
             raise vlib.Infra("nfs41 driver %s failed:\n%s" % (test, o[-3000:]))
-        vlib.log("nfs41 %s: a duplicate request never returned (logged; the runtime reported the blocked goroutine)" % test)
+        vlib.log("nfs41 %s: a duplicate request never returned or a server lock was left held (logged; the runtime reported the blocked goroutines)" % test)
     return out
 
 
